@@ -59,6 +59,7 @@ type c04Case struct {
 	Seq2    []int   `json:"seq2,omitempty"` // second connection (acceptor only)
 	Cuts    []int   `json:"cuts"`           // cut positions in the concatenated stream; [-1] = one byte per read; [-2] = one message per read
 	Mode    string  `json:"mode"`           // "inbound" | "outbound"
+	StallMs int     `json:"stall_ms,omitempty"` // > 0: the peer pauses this long (virtual time) between the chunks
 }
 
 func streamOf(seq []int) ([]byte, [][]byte) {
@@ -95,6 +96,22 @@ func chunksOf(stream []byte, msgs [][]byte, cuts []int) [][]byte {
 	return out
 }
 
+// feedChunks hands the chunks to the connection; with a stall the peer pauses between them, longer
+// than any read deadline / poll interval the library may use.
+func feedChunks(cn *sconn, chunks [][]byte, stallMs int) {
+	if stallMs <= 0 {
+		cn.feed(chunks...)
+		return
+	}
+	for i, ch := range chunks {
+		if i > 0 {
+			time.Sleep(time.Duration(stallMs) * time.Millisecond)
+		}
+		cn.feed(ch)
+		vsched.Settle()
+	}
+}
+
 // c04Body runs one inbound scenario and fills obs.
 func c04Inbound(c c04Case, obs *c04Obs) {
 	*obs = c04Obs{seen: map[int][][]byte{}}
@@ -119,7 +136,7 @@ func c04Inbound(c c04Case, obs *c04Obs) {
 		cl := simplefixgo.NewInitiator(conns[0], h, c.Buf, 5*time.Second)
 		go func() { obs.serveErr = cl.Serve(); obs.served = true }()
 		vsched.Settle()
-		conns[0].feed(chunksOf(s1, m1, c.Cuts)...)
+		feedChunks(conns[0], chunksOf(s1, m1, c.Cuts), c.StallMs)
 		vsched.Settle()
 		conns[0].eof = true
 		time.Sleep(10 * time.Second)
@@ -140,7 +157,7 @@ func c04Inbound(c c04Case, obs *c04Obs) {
 			l.q = append(l.q, cn)
 		}
 		vsched.Settle()
-		conns[0].feed(chunksOf(s1, m1, c.Cuts)...)
+		feedChunks(conns[0], chunksOf(s1, m1, c.Cuts), c.StallMs)
 		if len(c.Seq2) > 0 {
 			s2, m2 := streamOf(c.Seq2)
 			conns[1].feed(chunksOf(s2, m2, []int{-2})...)
@@ -451,12 +468,12 @@ func idxOf(s []string, x string) int {
 }
 
 func c04Key(c c04Case) string {
-	return fmt.Sprintf("%s/%d/%v/%v/%v/%s", c.Role, c.Buf, c.Seq, c.Seq2, c.Cuts, c.Mode)
+	return fmt.Sprintf("%s/%d/%v/%v/%v/%s/%d", c.Role, c.Buf, c.Seq, c.Seq2, c.Cuts, c.Mode, c.StallMs)
 }
 
 func c04ScenarioOf(c c04Case, delay bool, bound int) *schedScenario {
 	var obs c04Obs
-	p := map[string]any{"role": c.Role, "buf": c.Buf, "seq": c.Seq, "seq2": c.Seq2, "cuts": c.Cuts, "mode": c.Mode}
+	p := map[string]any{"role": c.Role, "buf": c.Buf, "seq": c.Seq, "seq2": c.Seq2, "cuts": c.Cuts, "mode": c.Mode, "stall_ms": c.StallMs}
 	sc := &schedScenario{Name: "c04", Params: p, Strict: true, Delay: delay, Bound: bound, MaxSteps: 400000}
 	sc.Body = func() {
 		switch c.Mode {
@@ -514,7 +531,7 @@ func pints(p map[string]any, k string) []int {
 }
 
 func c04FromParams(name string, p map[string]any) *schedScenario {
-	c := c04Case{Role: pstr(p, "role"), Buf: pint(p, "buf"), Seq: pints(p, "seq"), Seq2: pints(p, "seq2"), Cuts: pints(p, "cuts"), Mode: pstr(p, "mode")}
+	c := c04Case{Role: pstr(p, "role"), Buf: pint(p, "buf"), Seq: pints(p, "seq"), Seq2: pints(p, "seq2"), Cuts: pints(p, "cuts"), Mode: pstr(p, "mode"), StallMs: pint(p, "stall_ms")}
 	return c04ScenarioOf(c, true, 0)
 }
 
@@ -625,6 +642,15 @@ func runC04(R *vlib.Out) {
 						if !runDefault(c04Case{Role: role, Buf: buf, Seq: seq, Cuts: []int{c1}, Mode: "inbound"}) {
 							goto done
 						}
+						// the same cut with the peer pausing at it (3 s: beyond any poll interval)
+						if len(seq) <= 2 || thorough {
+							if !runDefault(c04Case{Role: role, Buf: buf, Seq: seq, Cuts: []int{c1}, Mode: "inbound", StallMs: 3000}) {
+								goto done
+							}
+						}
+					}
+					if !runDefault(c04Case{Role: role, Buf: buf, Seq: seq, Cuts: []int{-1}, Mode: "inbound", StallMs: 300}) {
+						goto done
 					}
 				}
 			}
